@@ -53,6 +53,10 @@ def plan(rng, tier):
     L = rng.choice([25, 60, 150, 400] if tier == "quick" else [25, 60, 150, 400, 2000])
     over = rng.choice([0, 1, 3, 40])
     steps = [{"op": "deep_setup", "shape": shape, "limit": L, "formula_error": rng.random() < 0.8}]
+    if rng.random() < 0.35:
+        # the configured limit is a session setting: switching the stack trace on and off (which replaces the call stack
+        # object) leaves it as configured
+        steps.append({"op": "deep_trace_toggle"})
     seq = rng.choice(["fail_first", "short_first", "fail_twice", "climb"])
     if seq == "short_first":
         steps.append({"op": "deep_eval", "n": rng.choice([1, L // 2, L - 2])})
@@ -103,6 +107,23 @@ def run(ctx, pid):
                 else:
                     mx.set_recursion(L)
                 events.append("setup %s L=%d" % (shape, L))
+                continue
+            if st["op"] == "deep_trace_toggle":
+                import warnings
+                with warnings.catch_warnings():
+                    warnings.simplefilter("ignore")
+                    mx.start_stacktrace(maxlen=5)
+                    if space is not None:
+                        try:
+                            space.f(2)
+                        except Exception:
+                            pass
+                        for name, src, cached in SHAPES[shape]:
+                            getattr(space, name).clear()
+                    mx.stop_stacktrace()
+                events.append("stack trace on and off; limit now %s" % mx.get_recursion())
+                if L is not None and mx.get_recursion() != L:
+                    raise Violation("%s/deep/configured-limit-lost/%s" % (pid, mx.get_recursion()), {"configured": L})
                 continue
             if space is None:
                 continue
